@@ -81,6 +81,7 @@ def generate(tier, rng):
     if i % 7 == 3:
       ids_i = [[]] + ids_i[1:]        # the empty id b'' is a valid client id
     yield {'kind': 'get', 'ids': ids_i, 'n': rng.randrange(1, nc + 1), 'form': [0, 1, 2, 3, 4, 8, 5, 12][i % 8],
+           'ins': [0, 1 + i, 0, 1 + i][i % 4] if i % 2 else 0,
            'seed': rng.choice([0, 1, 2 ** 32 - 1, rng.randrange(2 ** 32), rng.randrange(100)]),
            'start': rng.choice([0, 0, 1, rng.randrange(0, maxround)]),
            'ops': _history(rng, kinds[i % len(kinds)], maxround), 'fd': ['mem', 'subset', 'mem', 'sqlite'][i % 4]}
@@ -107,6 +108,12 @@ def generate(tier, rng):
            'r': rng.choice([0, 1, 2, rng.randrange(100), rng.randrange(10 ** 6), 2 ** 31 - 2, rng.randrange(2 ** 31)])}
   # streaming sampler: every implementation of shuffled_clients x the edge seeds 0, 1, 2^32-1
   # (a seed of 0 must be a seed, not "unseeded") x a few shapes, then random ones
+  # a really repeating stream whose epoch length (5 clients) is NOT a multiple of the cohort (3): rounds
+  # straddle epoch boundaries; restarts at rounds beyond the first boundary; several stream seeds
+  for j, (impl, seed) in enumerate(itertools.product(('mem', 'subset', 'sqlite'), (0, 1, 7, 12345, 2 ** 32 - 1))):
+    for start in ((2, 3, 5) if tier != 'quick' else (2 + j % 3,)):
+      yield {'kind': 'stream', 'ids': _ids(5, j % 3), 'n': 3, 'start': start, 'k': 4, 'B': 5, 'seed': seed, 'src': 'fd',
+             'fd': impl, 'ins': j}
   edge = []
   for impl in ('mem', 'subset', 'sqlite'):
     for seed in (0, 1, 2 ** 32 - 1):
@@ -120,7 +127,8 @@ def generate(tier, rng):
     yield {'kind': 'stream', 'ids': _ids(nc, i % 3), 'n': rng.randrange(1, nc + 2), 'start': rng.choice([0, 1, 2, 3, 7]),
            'k': rng.randrange(1, 5), 'B': rng.choice([1, 2, 3, nc, nc + 3]),
            'seed': rng.choice([0, 0, 1, 2 ** 32 - 1, rng.randrange(2 ** 32), rng.randrange(2 ** 31)]),
-           'src': rng.choice(['fd', 'fd', 'handmade', 'iterlist', 'map', 'counted']), 'fd': ['mem', 'subset', 'sqlite'][i % 3]}
+           'src': rng.choice(['fd', 'fd', 'handmade', 'iterlist', 'map', 'counted']), 'fd': ['mem', 'subset', 'sqlite'][i % 3],
+           'ins': i % 2 * (i + 1)}
 
 
 # --------------------------------------------------------------------------
@@ -139,10 +147,16 @@ def _rows(k):
 
 
 def _fd(case):
-  """(federated data, ids in client_ids() order, cleanup)."""
+  """(federated data, sorted ids, ids in the order client_ids() must produce, cleanup): in-memory and
+  subset datasets iterate in sorted id order whatever the insertion order, SQLite in insertion order."""
   import fedjax
   ids = sorted(_pyid(i, case) for i in case['ids'])
-  data = {cid: {'x': np.array(_rows(k), dtype=np.int32)} for k, cid in enumerate(ids)}
+  rows = {cid: {'x': np.array(_rows(k), dtype=np.int32)} for k, cid in enumerate(ids)}
+  ins = list(ids)
+  if case.get('ins'):        # the mapping / the SQLite file is filled in an order that is NOT the sorted one
+    import random
+    random.Random(case['ins']).shuffle(ins)
+  data = {cid: rows[cid] for cid in ins}
   if case.get('fd') == 'sqlite':
     import os
     import shutil
@@ -151,16 +165,17 @@ def _fd(case):
     d = tempfile.mkdtemp(prefix='verif_c13_')
     path = os.path.join(d, 'fd.sqlite')
     with sq.SQLiteFederatedDataBuilder(path) as b:
-      b.add_many([(cid, data[cid]) for cid in ids])
-    return sq.SQLiteFederatedData.new(path), ids, lambda: shutil.rmtree(d, ignore_errors=True)
+      b.add_many([(cid, data[cid]) for cid in ins])
+    return sq.SQLiteFederatedData.new(path), ids, ins, lambda: shutil.rmtree(d, ignore_errors=True)
   if case.get('fd') == 'subset':
     from fedjax.core import federated_data as fdm
     extra = {b'\x00extra': {'x': np.array([-1], dtype=np.int32)}, b'zz_extra\x00': {'x': np.array([-2, -3], dtype=np.int32)}}
     if case.get('idtype') == 'str':
       extra = {k.decode('latin1'): v for k, v in extra.items()}
     extra = {k: v for k, v in extra.items() if k not in data}
-    return fdm.SubsetFederatedData(fedjax.InMemoryFederatedData({**data, **extra}), ids), ids, lambda: None
-  return fedjax.InMemoryFederatedData(data), ids, lambda: None
+    sub = list(ins)
+    return fdm.SubsetFederatedData(fedjax.InMemoryFederatedData({**extra, **data}), sub), ids, ids, lambda: None
+  return fedjax.InMemoryFederatedData(data), ids, ids, lambda: None
 
 
 def _key_table(rounds, n):
@@ -198,19 +213,19 @@ def _perturb(k):
 
 def run(case):
   if case['kind'] == 'prs':
-    return _run(case, None, [])
-  fd, ids, cleanup = _fd(case)
+    return _run(case, None, [], [])
+  fd, ids, fd_ids, cleanup = _fd(case)
   saved = np.random.get_state()
   try:
-    if list(fd.client_ids()) != ids:
-      raise RuntimeError('client_ids() is not the sorted id list')
-    return _run(case, fd, ids)
+    if list(fd.client_ids()) != fd_ids:
+      raise RuntimeError('client_ids() is not in the documented order')
+    return _run(case, fd, ids, fd_ids)
   finally:
     np.random.set_state(saved)
     cleanup()
 
 
-def _run(case, fd, ids):
+def _run(case, fd, ids, fd_ids):
   from fedjax.core import client_samplers as cs
   n = case.get('n')
   if case['kind'] == 'get':
@@ -262,11 +277,11 @@ def _run(case, fd, ids):
     # the oracle answers, recomputed independently of the implementation
     start_val = int(np.random.RandomState(seed).randint(1, M31 - 1))
     table, contract = [], 1 <= start_val < M31 - 1
-    arr = np.array(ids, dtype=object)
+    arr = np.array(fd_ids, dtype=object)
     for rr in sorted(set(rounds)):
       s = pow(16807, rr, M31) * start_val % M31
       ch = list(np.random.RandomState(s).choice(arr, size=n, replace=False))
-      idxs = [ids.index(c) for c in ch]
+      idxs = [fd_ids.index(c) for c in ch]
       contract = contract and len(idxs) == n and len(set(idxs)) == n
       again = list(np.random.RandomState(s).choice(arr, size=n, replace=False))
       contract = contract and again == ch
@@ -274,6 +289,7 @@ def _run(case, fd, ids):
     ktab, inj = _key_table(set(rounds) | {x + 1 for x in rounds} | {max(0, x - 1) for x in rounds} | {0, case['seed'] % (2 ** 31)}, n)
     paths = [[list(ktab.get(tuple(c[2]), (-1, -1))) for c in o] if isinstance(o, list) else None for o in outs]
     return {'outs': outs, 'rounds': rounds, 'restart_same': restart_same, 'start_val': start_val, 'table': table,
+            'id_order': [_codes(c) for c in fd_ids],
             'numpy_contract': bool(contract), 'key_paths': paths, 'key_table_injective': inj, 'changed_later': stable,
             'fd_unchanged': _snapshot(fd) == snap}
   if case['kind'] == 'prs':
@@ -295,7 +311,20 @@ def _run(case, fd, ids):
       pulled[0] += 1
       yield x
 
+  class Overrun(Exception):
+    pass
+
+  def limited(it):
+    # the samplers need (start + k) * n items; far more means a sampler that keeps drawing
+    for j, x in enumerate(it):
+      if j >= 3 * (start + k) * n + 4 * len(ids) + 8:
+        raise Overrun()
+      yield x
+
   def stream():
+    return limited(stream0())
+
+  def stream0():
     if case['src'] == 'fd':
       return fd.shuffled_clients(case['B'], case['seed'])
     if case['src'] in ('iterlist', 'map', 'counted'):
@@ -321,6 +350,7 @@ def _run(case, fd, ids):
     err = None
   except Exception as ex:  # pylint: disable=broad-except
     outs_a, outs_b, err = [], [], type(ex).__name__
+  # (Hang from the watchdog is a BaseException and passes through)
   _perturb(3)
   prefix = [ids.index(cid) for cid, _ in itertools.islice(stream(), (start + k) * n)]
   _perturb(4)
@@ -398,10 +428,16 @@ def oracle(case, obs):
       if not same:
         v.append(('restart-differs', f'a sampler restarted at round {r} does not reproduce the original round {r}'))
     v += _keys_across(obs['outs'], obs['rounds'], '')
+    for o, kp, r in zip(obs['outs'], obs['key_paths'], obs['rounds']):
+      if isinstance(o, list) and kp != [[r, i] for i in range(len(o))]:
+        v.append(('key-not-split-of-round', f'the keys of round {r} are not split(PRNGKey({r}), cohort)[0..]'))
+        break
     for j in obs.get('changed_later', []):
       v.append(('cohort-changed-later', f'the cohort returned for round {obs["rounds"][j]} (ids / datasets / keys) reads differently '
                 'after other rounds were sampled'))
     return v
+  if obs['err'] == 'Overrun':
+    return v + [('stream-overconsumed', 'a streaming sampler drew far more items from the client stream than rounds * cohort')]
   if obs['err'] is not None:
     return v + [('stream-raised', f'the streaming sampler raised {obs["err"]}')]
   start = case['start']
@@ -437,8 +473,9 @@ def encode(case, obs):
       return None
     ops = '[' + '; '.join('Sample' if o[0] == 'S' else f'SetRound {fw.zlit(o[1])}%Z' for o in case['ops']) + ']'
     table = '[' + '; '.join(f'({fw.zlit(s)}%Z, {fw.natlist(ix)})' for s, ix in obs['table']) + ']'
-    idt = '[' + '; '.join(_zl(list(i)) for i in ids) + ']'
-    dat = '[' + '; '.join(_zl(_rows(k)) for k in range(len(ids))) + ']'
+    order = [tuple(i) for i in obs['id_order']]       # client_ids() order = the order of the model's dataset
+    idt = '[' + '; '.join(_zl(list(i)) for i in order) + ']'
+    dat = '[' + '; '.join(_zl(_rows(ids.index(i))) for i in order) + ']'
     outs = []
     for o, kp in zip(obs['outs'], obs['key_paths']):
       if not isinstance(o, list):
